@@ -49,6 +49,10 @@ SCENARIOS = {
     'known/git-diff-word-diff-sbs-vs-none': (['--side-by-side', 'git', 'diff', '--color-words'], None, ['git', 'verif-neutral-parent'], WORD_DIFF, 'GitDiff', 'None'),
     'known/git-show-file-vs-git-grep': (['git', 'show', 'HEAD:src/f.rs'], None, ['git', 'grep', 'x'], RUST_CODE, 'GitShow', 'GitGrep'),
     'stdin/git-diff-word-diff-ln': (['--line-numbers'], WORD_DIFF, ['git', 'diff', '--word-diff'], None, None, 'GitDiff'),
+    # delta launches a command it has no description for (nothing is published): queries must be answered by the
+    # background determination, under every schedule, and never wait for ever
+    'launched-unparsed/git-status-vs-git-grep': (['--line-numbers', 'git', 'status'], None, ['git', 'grep', '-n', 'x'], GREP_PLAIN, None, 'GitGrep'),
+    'launched-unparsed/git-alias-vs-none': (['--side-by-side', 'git', 'd'], None, ['git', 'verif-neutral-parent'], WORD_DIFF, None, 'None'),
 }
 
 _QUERIES = {}
@@ -66,7 +70,7 @@ def reference_schedule(name):
     return ['bg:before_lock', 'bg:done', 'query1:before_lock']
 
 
-def run_scenario(name, sched=None, hold=False, jitter=None, variant='hooks', timeout=20.0):
+def run_scenario(name, sched=None, hold=False, jitter=None, variant='hooks', timeout=20.0, jitter_max_us=None):
     """Runs one scenario under one schedule.  Returns dict(out, err, rc, trace, timed_out, deadlock, hold_released)."""
     args, stdin, parent, stub_out, known, guess = SCENARIOS[name]
     w = runner.workdir()
@@ -87,6 +91,8 @@ def run_scenario(name, sched=None, hold=False, jitter=None, variant='hooks', tim
         env['DELTA_VERIF_HOLD'] = 'bg:before_lock=' + hold_path
     if jitter is not None:
         env['DELTA_VERIF_JITTER'] = str(jitter)
+        if jitter_max_us:
+            env['DELTA_VERIF_JITTER_MAX_US'] = str(jitter_max_us)
     if variant == 'tsan':
         env['TSAN_OPTIONS'] = 'halt_on_error=0 exitcode=66 report_signal_unsafe=0'
     exe = runner.binary(variant)
@@ -395,7 +401,9 @@ def run_item(item):
     if kind in ('jitter', 'unforced', 'tsan'):
         ref = _reference(name)
         variant = 'tsan' if kind == 'tsan' else 'hooks'
-        r = run_scenario(name, jitter=item[2] if kind != 'unforced' else None, variant=variant, timeout=60 if variant == 'tsan' else 20)
+        # the bound of the jitter sleeps varies over three orders of magnitude, so that either thread can be the slow one
+        jmax = [300, 3000, 30000, 120000][item[2] % 4] if kind != 'unforced' else None
+        r = run_scenario(name, jitter=item[2] if kind != 'unforced' else None, variant=variant, timeout=60 if variant == 'tsan' else 20, jitter_max_us=jmax)
         if variant == 'tsan':
             err = r['err'].decode('utf-8', 'replace')
             if 'ThreadSanitizer' in err or r['rc'] == 66:
